@@ -6,7 +6,9 @@ import core
 import decsuite as ds
 
 THEOREMS = ["C05.c05_superfluous_exact", "C05.c05_done_exact", "C05.take_depleted", "C05.c05_cc",
-            "C05.c05_surplus_walker", "runWalker_acct"]
+            "C05.c05_surplus_walker", "runWalker_acct",
+            "TRB.bind", "take_tr", "decode_tr", "decodeCommand_tr", "decodeResponse_tr", "runWalker_tr",
+            "C05.c05_truncated", "C05.c05_cut_beyond", "C05.c05_truncated_type", "C05.c05_truncated_command", "C05.c05_truncated_response"]
 
 
 def cc_of(events_lines):
